@@ -331,7 +331,7 @@ func (b *builder) otherSerial(s uint32) uint32 {
 var classes = []string{"valid", "wronglen", "wrongserial", "serial0", "wrongfn", "wrongproto", "proto19", "malformed", "garbage"}
 
 // classes of C03: the nine of the statement plus replies whose malformed field is an impossible value rather than an undecodable one
-var classes03 = append(append([]string{}, classes...), "valid-ood")
+var classes03 = append(append([]string{}, classes...), "valid-ood", "echo")
 
 // NumClasses03 is the number of datagram classes the C03 profile draws from (evidence: size of the class-sequence space).
 var NumClasses03 = len(classes03)
@@ -370,6 +370,14 @@ func (b *builder) datagram(class string, op model.Op, a *model.Args, S uint32) [
 			ext[i] = byte(r.Intn(256))
 		}
 		return ext
+	case "echo":
+		// the request itself comes back (a reflector, a loop in the network): 64 bytes, right header, right serial -
+		// to the protocol a reply like any other, to be read field by field
+		if d := model.Encode(op, a); len(d) == 64 {
+			d[4], d[5], d[6], d[7] = byte(S), byte(S>>8), byte(S>>16), byte(S>>24)
+			return d
+		}
+		return valid()
 	case "wrongserial":
 		d := model.GenReply(r, op, a, b.otherSerial(S), model.ReplyOpts{})
 		return d
@@ -1165,9 +1173,12 @@ func genC11(b *builder) {
 			for k := 0; k < nrep; k++ {
 				cl := "valid"
 				if r.Intn(3) == 0 {
-					cl = pick(r, "wronglen", "wrongproto", "wrongfn", "malformed", "garbage", "valid-ood", "proto19", "serial0")
+					cl = pick(r, "wronglen", "wrongproto", "wrongfn", "malformed", "garbage", "valid-ood", "proto19", "serial0", "echo")
 				}
 				d := b.datagram(cl, model.GetDevice, &a, serial)
+				if cl == "echo" {
+					d = model.Encode(model.GetDevices, &model.Args{}) // the discovery request as it left: an all-zero reply
+				}
 				if cl == "valid" && last != nil && r.Intn(3) == 0 {
 					d = append([]byte(nil), last...) // exact duplicate
 					cl = "duplicate"
